@@ -3,13 +3,13 @@ import Okane.Lemmas.C05Round
 /-!
 # Image lemmas for C05, part 3: the hypotheses on the text, trimming, dates
 
-* `TextOK t`: the two decidable conditions on the TEXT under which the image property is proved
+* `TextOK t`: the decidable condition on the TEXT under which the image property is proved
   - `asciiSpaceOnly t`: the only white space (`char::is_whitespace`) in the text is blank, tab, LF, CR — excludes the known
-    findings F27 / F28 (white space that Rust's `trim` strips but the parser's `space0` / `space1` do not skip);
-  - `parensClosed t`: every `(` is followed, somewhere later in the text, by a `)` — excludes a payee that begins with an
-    unclosed `(` (`2024/01/01 (abc`: `paren_str` fails for want of a `)`, the text becomes the payee, and `wfPayee` rejects a
-    payee that starts with `(` because, printed before other entries, it could be read back as a code).
-  Both pass to every suffix of the text (`TextOK.suffix`), hence to the input of every sub-parser.
+    findings F27 / F28 (white space that Rust's `trim` strips but the parser's `space0` / `space1` do not skip).
+  It passes to every suffix of the text (`TextOK.suffix`), hence to the input of every sub-parser.
+  (A second condition, "every `(` is followed later in the text by a `)`", was needed while `paren_str` searched for the
+  closing parenthesis across line ends; since the transaction code must be closed on its line, a payee such as `(abc` is
+  read back as it is printed, `wfPayee` admits it, and the condition is gone.)
 * what `trim`, `trim_start`, `trim_end` return;
 * `date_image`: a parsed date satisfies `wfDate`.
 -/
@@ -26,30 +26,18 @@ def okWs (c : Char) : Bool := !isRustWhitespace c || c == ' ' || c == '\t' || c 
 /-- no white space other than blank, tab, LF, CR -/
 def asciiSpaceOnly (t : List Char) : Bool := t.all okWs
 
-/-- every `(` is followed later in the text by a `)` -/
-def parensClosed : List Char → Bool
-  | [] => true
-  | c :: r => (c != '(' || r.contains ')') && parensClosed r
-
-/-- the hypotheses on the text (both decidable) -/
+/-- the hypothesis on the text (decidable) -/
 structure TextOK (t : List Char) : Prop where
   ws : asciiSpaceOnly t = true
-  par : parensClosed t = true
 
 instance (t : List Char) : Decidable (TextOK t) :=
-  if h : asciiSpaceOnly t = true ∧ parensClosed t = true then isTrue ⟨h.1, h.2⟩
-  else isFalse fun ⟨a, b⟩ => h ⟨a, b⟩
+  if h : asciiSpaceOnly t = true then isTrue ⟨h⟩ else isFalse fun ⟨a⟩ => h a
 
-theorem parensClosed_append (a r : List Char) (h : parensClosed (a ++ r) = true) : parensClosed r = true := by
-  induction a with
-  | nil => exact h
-  | cons c t ih =>
-    simp only [List.cons_append, parensClosed, Bool.and_eq_true] at h
-    exact ih h.2
+theorem textOK_iff (t : List Char) : TextOK t ↔ asciiSpaceOnly t = true := ⟨fun h => h.ws, fun h => ⟨h⟩⟩
 
 theorem TextOK.suffix {t r : List Char} (h : TextOK t) (hs : r <:+ t) : TextOK r := by
   obtain ⟨a, rfl⟩ := hs
-  refine ⟨?_, parensClosed_append a r h.par⟩
+  refine ⟨?_⟩
   have := h.ws
   simp only [asciiSpaceOnly, List.all_append, Bool.and_eq_true] at this ⊢
   exact this.2
@@ -58,12 +46,6 @@ theorem TextOK.mem {t : List Char} (h : TextOK t) {c : Char} (hc : c ∈ t) : ok
   have := h.ws
   simp only [asciiSpaceOnly, List.all_eq_true] at this
   exact this c hc
-
-/-- a `(` at the head of a text with closed parentheses has its `)` -/
-theorem TextOK.paren {r : List Char} (h : TextOK ('(' :: r)) : ')' ∈ r := by
-  have := h.par
-  simp only [parensClosed, Bool.and_eq_true] at this
-  simpa using this.1
 
 /-- under `asciiSpaceOnly`, a white-space character that is not a line end is a blank or a tab -/
 theorem okWs_space {c : Char} (h : okWs c = true) (hw : isRustWhitespace c = true) (he : isEol c = false) : isSpace c = true := by
